@@ -472,6 +472,10 @@ add("C27", "fixed", "macro:arguments-without-commas", "{% call f 1 2 %} and {% c
     "left-over tokens are now a syntax error",
     [{"kind": "macro", "params": ["none", "none"], "npos": 2, "kws": [], "call_comma": False, "async": False}], "7843a2f")
 
+add("C17", "fixed", "stale-clock:filter:date", "a time without a date ('10:00' | date: ...) is completed from today's date by the parser, but went through the date filter's memo without the date in the key: "
+    "the first render's day was served on later days (residue of b13bdc7, which only took 'now' and 'today' out of the memo)",
+    [], "522941a")
+
 if __name__ == "__main__":
     # further entries are appended by tools/mkfindings.py from triaged replay files and kept in findings_extra.json
     extra_path = os.path.join(VERIF, "tools", "findings_extra.json")
